@@ -51,6 +51,9 @@ def run(ctx):
     check_case_decisions(ctx, T)
     check_strip_comments(ctx, T)
     check_placement(ctx)
+    from .. import rules_base as RB
+    ctx.rule('R8.B', 'base model: token-type containment, token flags / normal form, Token.match and imt behave as the abstract evaluation assumes', floor=1)
+    RB.check_base_model(ctx, 'R8.B', parts=('contains', 'flags', 'match', 'imt'))
 
 
 def stream_loop(ctx, f):
